@@ -35,3 +35,13 @@ contract("C14.unit_exists", file=A, func="unit_exists", params=dict(P, tag_entry
              "C14.default_units.known_unit_not_reported_invalid": "implies(len(unit) == 0 or derivative_unit_of(tag_entry, unit) is not None,"
                                                                   " all_in(result, lambda x: x.kind != 'SCHEMA_DEFAULT_UNITS_INVALID'))",
          })
+
+# C14: inLibrary must name one of the libraries the schema was loaded with (a whole comma-separated field, not a substring)
+class_model("SchemaWithLibrary", {"library": "Str"})
+contract("C14.in_library_check", file=A, func="in_library_check", params=dict(P, hed_schema="SchemaWithLibrary"), returns="List[Issue]", enc="native",
+         bounded={"cases": "rt.gens.in_library_cases", "adapter": "rt.adapters.attribute_validator"},
+         lets={"lib": "tag_entry.attributes[attribute_name] if attribute_name in tag_entry.attributes else ''"},
+         ensures={
+             "C14.in_library.reported_iff_not_a_loaded_library": "(len(result) > 0) == (not is_field(hed_schema.library, ',', lib))",
+             "C14.in_library.code": "all_in(result, lambda x: x.code == 'SCHEMA_ATTRIBUTE_VALUE_INVALID' and x.kind == 'SCHEMA_IN_LIBRARY_INVALID')",
+         })
